@@ -250,6 +250,33 @@ class PCTChooser:
         return i
 
 
+class DelayAfterChooser:
+    """Random schedules with delays injected after communication steps: when a process has just performed an action of one
+    of the given kinds (e.g. a queue `put`), it may be put to sleep until every other process is blocked or has only
+    time-outs left (or for a bounded number of steps).  Exposes "reported, but not yet recorded" windows."""
+
+    def __init__(self, seed, kinds=("put",), prob=0.6, max_sleep=40, timeout_weight=0.05):
+        self.rng = random.Random(seed)
+        self.kinds, self.prob, self.max_sleep, self.tw = tuple(kinds), prob, max_sleep, timeout_weight
+        self.asleep = {}
+
+    def choose(self, acts, sim):
+        for k in list(self.asleep):
+            self.asleep[k] -= 1
+            if self.asleep[k] <= 0:
+                del self.asleep[k]
+        awake = [i for i, a in enumerate(acts) if id(a.proc) not in self.asleep]
+        cand = [i for i in awake if acts[i].progress]
+        if not cand:
+            self.asleep.clear()
+            cand = [i for i, a in enumerate(acts) if a.progress] or list(range(len(acts)))
+        w = [1.0 if acts[i].progress else self.tw for i in cand]
+        i = self.rng.choices(cand, weights=w)[0]
+        if acts[i].kind in self.kinds and not isinstance(acts[i].proc, Feeder) and self.rng.random() < self.prob:
+            self.asleep[id(acts[i].proc)] = self.max_sleep
+        return i
+
+
 class ReplayChooser:
     def __init__(self, choices, then=None):
         self.choices, self.k, self.then = list(choices), 0, then
